@@ -50,6 +50,6 @@ theorem rStepLocal_ctxs {ro : Bool} {side : Bool → Side} {free : Bool → Bool
        first
          | exact CtxStep.same hk
          | skip)
-  all_goals sorry
+  done
 
 end AranyaV.Shm
